@@ -149,8 +149,8 @@ Consistent(h) ==
                          /\ ~HasDotDot(h[i].name)
                          /\ (h[i].k \in Representable => Norm(h[i].name) # <<>>)
                          /\ (h[i].k \in Harmless => Len(Norm(h[i].name)) = 1)
-                         /\ (h[i].k = "l" => ~IsAbsT(h[i].tgt)
-                               /\ Under(JoinClean(Parent(Dst \o Norm(h[i].name)), h[i].tgt), Dst))
+                         /\ (h[i].k = "l" => ~IsAbsT(h[i].tgt)       \* a link that stays inside the archive root at its own position
+                               /\ Under(JoinClean(<<"#root">> \o Parent(Norm(h[i].name)), h[i].tgt), <<"#root">>))
   /\ \A p \in EPaths(h) : Cardinality(KindsAt(h, p)) = 1
   /\ \A p \in EPaths(h), q \in EPaths(h) : ProperPrefix(p, q) => KindsAt(h, p) = {"d"}
   /\ \A i, j \in DOMAIN h : (i # j /\ h[i].k = "l" /\ h[j].k = "l") => Norm(h[i].name) # Norm(h[j].name)
